@@ -25,8 +25,10 @@
       `dotRows_blocks_prob`, `unflatten_prob`, `brSelection_block_prob`, `mt_profile_prob_lh_partial` (rho from
       Lemke–Howson as a certificate; `mt_profile_prob_partial` is its general form);
       in exact arithmetic with the real rule: `ig_rho_prob_or_zero`, `mt_profile_prob_or_zero`,
-      `ig_box_invariant` (no hypothesis), `mt_profile_prob_exact_partial` (only "no inner run ends
-      with Σy = 0").
+      `ig_box_invariant` (no hypothesis), `ig_lh_never_artificial` (a converged inner run never
+      stops with Σy = 0: C05's path argument ported to the imitation game's tableaux),
+      `ig_rho_prob_of_converged`, `mt_profile_prob_of_inner_convergence`,
+      `ig_box_of_inner_convergence` (assume only that the inner runs converge within max_piv).
 -/
 import Mathlib.Topology.MetricSpace.Contracting
 import QEModel.C15
@@ -41,6 +43,7 @@ import QEProofs.Lemmas.C15HowsonInit
 import QEProofs.Lemmas.C15HowsonSol
 import QEProofs.Lemmas.C15HowsonNash
 import QEProofs.Lemmas.C15IgLH
+import QEProofs.Lemmas.C15IgArt
 namespace QE.C15
 
 /-! ## compute_fixed_point, method = 'iteration' -/
@@ -1180,8 +1183,9 @@ The pivoting loop and the read-out of the imitation game are QEModel.C05's `lhLo
 but C05's theorems (`lh_tbl_invariant`, `lh_never_artificial`, `lh_sound`) are stated for tableaux
 built by `_initialize_tableaux` from a game, whose payoff blocks are strictly positive after the
 shift; `_initialize_tableaux_ig` leaves the mover's block as the identity, so `[I | I | 1]` is not
-`initT0 m m B` for any `B` and those theorems do not apply. What transfers is C05's generic
-one-tableau step (`tab_step'`): feasibility and canonical form at every pivot. -/
+`initT0 m m B` for any `B` and those theorems do not apply literally. What transfers unchanged is
+C05's single-tableau layer (stated for any reference tableau satisfying `TInit`); the two-tableau
+layer is re-proved for a pair of such tableaux (Lemmas/C15IgPath.lean, C15IgArt.lean). -/
 
 section iglh
 open QE.C05
@@ -1265,11 +1269,10 @@ theorem mt_profile_prob_or_zero (nums : List Nat) (hpos : ∀ k ∈ nums, 0 < k)
   · exact ⟨h1.2, Or.inl h1.1⟩
 
 /-- **… and a profile of probability vectors when no inner run ends at the artificial equilibrium**
-    (partial in exactly this hypothesis): if no inner Lemke–Howson run on a history the routine can
-    build stops with the `y` variables summing to 0, the point returned is a profile of probability
-    vectors. The hypothesis is what C05 proves for its own tableaux as `lh_never_artificial` (for
-    converged runs); for the imitation game's tableaux (identity block, not strictly positive) that
-    proof does not apply and it is not re-proved here. -/
+    (general form, kept for inner runs that do not converge): if no inner Lemke–Howson run on a
+    history the routine can build stops with the `y` variables summing to 0, the point returned is a
+    profile of probability vectors. For converged inner runs the hypothesis is the theorem
+    `ig_lh_never_artificial` below; see `mt_profile_prob_of_inner_convergence`. -/
 theorem mt_profile_prob_exact_partial (nums : List Nat) (hpos : ∀ k ∈ nums, 0 < k) (pays : List (List K))
     (hpays : ∀ i, i < nums.length → (pays.getD i []).length = (rot nums i).prod)
     (eps tolBR : K) (ht : 0 ≤ tolBR) (maxPiv maxIter : Nat) (x0 : List K)
@@ -1315,6 +1318,63 @@ theorem ig_box_invariant (lo hi : K) (hlo : lo ≤ 0) (hhi : 0 ≤ hi) (n : Nat)
       have e : (igNext maxPiv 0 0 X (X.map T)).getD k 0 = 0 := dotRows_zero _ _ hz k
       rw [e]; exact ⟨hlo, hhi⟩
   · exact hv
+
+/-- **A converged inner Lemke–Howson run never stops at the artificial equilibrium** (imitation
+    game of any non-empty history, any `max_piv`; exact arithmetic, tolerances 0): if
+    `_lemke_howson_tbl` reports convergence, the basic values of the `y` variables do not sum to 0.
+    This is QE.C05's `lh_never_artificial` for the tableaux `[I | I | 1]`, `[I | P | 1]` of
+    `_initialize_tableaux_ig`: C05's single-tableau layer (lexicographic positivity, reversibility
+    and row-order independence of the exact step, `tsim_init`) is stated for any reference tableau
+    with an identity slack block, non-negative entries and a positive entry in every column
+    (`TInit`: `ig0_tinit`, `ig1_tinit`); the two-tableau layer (mirror path, no return) is re-proved
+    for a pair of such tableaux in Lemmas/C15IgPath.lean, the artificial-equilibrium step for the
+    `y` side in Lemmas/C15IgArt.lean. -/
+theorem ig_lh_never_artificial (X Y : List (List K)) (hX : X ≠ []) (maxPiv : Nat)
+    (hconv : (igLH X Y maxPiv 0 0).1 = true) :
+    basicSum (igLH X Y maxPiv 0 0).2.T1 (igLH X Y maxPiv 0 0).2.b1 X.length (2 * X.length) ≠ 0 :=
+  igLH_nonzero X Y hX maxPiv hconv
+
+/-- **`rho` of a converged inner run is a probability vector** — no hypothesis left for converged
+    inner runs. (For a run that used up `max_piv` without converging the code does exactly the same
+    thing — it never looks at the flag — and `ig_rho_prob_or_zero` applies: `rho` is then a
+    probability vector or 0, the next point `rho.dot(Y)` a convex combination of the stored images or
+    the zero vector, and the outer loop goes on with its own test `is_approx_fp`.) -/
+theorem ig_rho_prob_of_converged (X Y : List (List K)) (hX : X ≠ []) (maxPiv : Nat)
+    (hconv : (igLH X Y maxPiv 0 0).1 = true) :
+    IsProbVec (igRho X Y maxPiv 0 0) ∧ (igRho X Y maxPiv 0 0).length = X.length := by
+  obtain ⟨h1, _, h3⟩ := ig_rho_prob_or_zero X Y hX maxPiv
+  exact ⟨h3 (ig_lh_never_artificial X Y hX maxPiv hconv), h1⟩
+
+/-- **mclennan_tourky returns a profile of probability vectors** (exact arithmetic; converged or not)
+    whenever the inner Lemke–Howson runs converge within `max_piv` — the only thing assumed; that a
+    converged inner run yields a probability vector `rho` is now a theorem. (Termination of
+    Lemke–Howson within the code's `max_piv = 10**6` is not proved; without it
+    `mt_profile_prob_or_zero` still holds.) -/
+theorem mt_profile_prob_of_inner_convergence (nums : List Nat) (hpos : ∀ k ∈ nums, 0 < k)
+    (pays : List (List K)) (hpays : ∀ i, i < nums.length → (pays.getD i []).length = (rot nums i).prod)
+    (eps tolBR : K) (ht : 0 ≤ tolBR) (maxPiv maxIter : Nat) (x0 : List K)
+    (h1 : IsBlockProb nums x0 ∧ x0.length = nums.sum)
+    (hinner : ∀ X Y : List (List K), X.length = Y.length → X ≠ [] → (igLH X Y maxPiv 0 0).1 = true) :
+    IsBlockProb nums (mclennanTourky nums pays eps tolBR (igNext maxPiv 0 0) maxIter x0).x ∧
+    (mclennanTourky nums pays eps tolBR (igNext maxPiv 0 0) maxIter x0).x.length = nums.sum :=
+  mt_profile_prob_exact_partial nums hpos pays hpays eps tolBR ht maxPiv maxIter x0 h1
+    (fun X Y hl hX => ig_lh_never_artificial X Y hX maxPiv (hinner X Y hl hX))
+
+/-- **compute_fixed_point (imitation game) keeps its iterates in any box** that `T` maps into itself,
+    whenever the inner Lemke–Howson runs converge within `max_piv` (exact arithmetic). -/
+theorem ig_box_of_inner_convergence (lo hi : K) (n : Nat) (T : List K → List K) (isFp : List K → Bool)
+    (hT : ∀ x : List K, (x.length = n ∧ ∀ k, k < n → lo ≤ x.getD k 0 ∧ x.getD k 0 ≤ hi) →
+      ((T x).length = n ∧ ∀ k, k < n → lo ≤ (T x).getD k 0 ∧ (T x).getD k 0 ≤ hi))
+    (maxPiv maxIter : Nat) (v : List K)
+    (hv : v.length = n ∧ ∀ k, k < n → lo ≤ v.getD k 0 ∧ v.getD k 0 ≤ hi)
+    (hinner : ∀ X Y : List (List K), X.length = Y.length → X ≠ [] → (igLH X Y maxPiv 0 0).1 = true) :
+    (fixedPointIG T isFp (igNext maxPiv 0 0) maxIter v).x.length = n ∧
+    ∀ k, k < n → lo ≤ (fixedPointIG T isFp (igNext maxPiv 0 0) maxIter v).x.getD k 0 ∧
+      (fixedPointIG T isFp (igNext maxPiv 0 0) maxIter v).x.getD k 0 ≤ hi :=
+  ig_box_invariant_partial lo hi n T isFp hT (fun X Y => igRho X Y maxPiv 0 0) maxIter v hv
+    (fun X Y hl hX => by
+      obtain ⟨hp, hlen⟩ := ig_rho_prob_of_converged X Y hX maxPiv (hinner X Y hl hX)
+      exact ⟨hp, by rw [hlen, hl]⟩)
 
 /-- non-vacuity: on a concrete history the inner run converges, the `y` values do not sum to 0 and
     `rho` is the probability vector `(1/3, 2/3)`… here for two stored points of the plane -/
